@@ -118,10 +118,10 @@ def pred_cases(ctx, W):
                 cs.append(pred_case(W, 'inj', life, k, F('9854.25'), rate))
     n_small = len(cs)
     dec = lambda lo, hi_, d: F(rnd.randint(int(lo * 10 ** d), int(hi_ * 10 ** d)), 10 ** d)
-    for _ in range(ctx.n(400, 4000)):
+    for _ in range(ctx.n(400, 2500)):
         life = rnd.choice([1, 2, 3, 5, 8, 12, 20, 30] + ([] if ctx.quick else [35, 60, 100]))
         k = rnd.choice([1, 2, 3, 4, 6] + ([] if ctx.quick else [12, 21, 100]))
-        cap = ctx.n(120, 400 if rnd.random() < 0.9 else 1200)   # series length the kernel evaluates comfortably
+        cap = ctx.n(120, 300 if rnd.random() < 0.9 else 1200)   # series length the kernel evaluates comfortably
         if life * k > cap:
             life = max(1, cap // k)
         exact = rnd.random() < 0.6
@@ -234,7 +234,7 @@ def make_config(ctx, hyd, flash, op):
 
 def run_configs(ctx):
     cfgs = [dict(c) for c in json.loads((CORPUS / 'run_seeds.json').read_text())]
-    m = ctx.n(1, 6)
+    m = ctx.n(1, 5)
     for hyd, flash in (('idx', False), ('idx', True), ('imp', False)):
         for op, w in ((None, 10), ('split', 8), ('artesian', 4), ('fast', 4), ('nosplit', 1), ('toofast', 1)):
             cfgs += [make_config(ctx, hyd, flash, op) for _ in range(w * m)]
@@ -458,7 +458,7 @@ def correspondence(ctx, proofs_ok=True):
     lap = lambda name: (t.append(time.time()), ctx.note(f'{name}: {t[-1] - t[-2]:.1f} s'))
     check_pred(ctx, pred_cases(ctx, W))
     lap('predictors')
-    specs = json.loads((CORPUS / 'friction_seeds.json').read_text()) + [sweep_spec(ctx) for _ in range(ctx.n(45, 1000))]
+    specs = json.loads((CORPUS / 'friction_seeds.json').read_text()) + [sweep_spec(ctx) for _ in range(ctx.n(45, 700))]
     check_friction(ctx, specs)
     lap('friction sweeps')
     cfgs = run_configs(ctx)
